@@ -31,6 +31,15 @@ BootstrapCorrection& BootstrapCorrection::operator=(BootstrapCorrection&& correc
 {
     PFCorrection::operator=(std::move(correction));
 
+    measurement_model_ = std::move(correction.measurement_model_);
+
+    likelihood_model_ = std::move(correction.likelihood_model_);
+
+    /* As after move construction, no likelihood is available until the next correction. */
+    valid_likelihood_ = false;
+
+    likelihood_.resize(0);
+
     return *this;
 }
 
